@@ -3,7 +3,7 @@
 // a[..n] the remainder, the return value its carry:  val(a) == s^2 + (r + carry * B^n),  r + carry * B^n <= 2 s.
 // This is the statement ASSUMED by unit int_root_ops (lib/gcdo_root_lemmas.rs) plus `len <= usize::MAX` (true of every
 // slice).  Recursion on the high half: measure n = |b|.
-/*@ #[verifier::spinoff_prover] #[verifier::rlimit(300)] @*/
+/*@ #[verifier::spinoff_prover] #[verifier::rlimit(400)] @*/
 pub fn sqrt_rem(b: &mut [Word], a: &mut [Word], memory: &mut Memory) -> bool
 /*@
     requires old(a)@.len() == 2 * old(b)@.len(), old(b)@.len() >= 2, old(a)@.len() <= usize::MAX,   // own debug assertions
@@ -141,9 +141,23 @@ pub fn sqrt_rem(b: &mut [Word], a: &mut [Word], memory: &mut Memory) -> bool
         assert(a3.subrange(0, k) =~= a_in.subrange(0, k));
     }
     @*/
-    /*@ proof { assume(false); } @*/ //CUT
     let (a_lo, a_hi) = a.split_at_mut(n);
+    /*@ proof {
+        assert(a_hi@.subrange(0, k) =~= a3.subrange(ni, ni + k));
+        assert(a_lo@.subrange(k, ni) =~= a3.subrange(k, ni));
+        assert(a_lo@.subrange(0, k) =~= a_in.subrange(0, k));
+    } @*/
     b[..split].copy_from_slice(&a_hi[..split]);
+    /*@
+    let ghost xb = r1_top ^ carry;
+    let ghost b2 = b@;
+    proof {
+        assert(b2.subrange(k, ni) =~= b1.subrange(k, ni));
+        lemma_root_top_bit_word(xb);
+        lemma_root_pow2_half();
+        assert((b2i(xb) * (B() / 2)) % (B() / 2) == 0) by (nonlinear_arith) requires 0 <= b2i(xb) <= 1, B() / 2 >= 1;
+    }
+    @*/
     // by now 2*q = b[..split], u = a[split..n], carry is true only if r1 >= s1.
     // also notice that r1 <= 2 * s1, if r1 was subtracted by s1, then r1 <= s1.
     // so r_top and carry are both true only if r1 == 2 * s1 at the beginning.
@@ -151,43 +165,246 @@ pub fn sqrt_rem(b: &mut [Word], a: &mut [Word], memory: &mut Memory) -> bool
     let _ =
         shr_in_place_with_carry(&mut b[..split], 1, ((r1_top ^ carry) as Word) << (WORD_BITS - 1));
     let q_top = r1_top && carry; // true only when q = B, and then b[..split] = 0
+    /*@
+    let ghost b3 = b@;
+    let ghost qlow = val(b3.subrange(0, k));
+    let ghost cr = b2i(carry); let ghost tr = b2i(r1_top); let ghost xi = b2i(xb); let ghost qt = b2i(q_top);
+    let ghost tt = qq % 2;                           // parity of the quotient by s1
+    let ghost qf = qlow + qt * pk;                   // q = (r1 * P + b1) div (2 s1)
+    let ghost uu2 = uu + tt * s1;                    // u = (r1 * P + b1) mod (2 s1)
+    let ghost sv = s1 * pk + qf;                     // root estimate
+    let ghost rr = uu2 * pk + vb0 - qf * qf;         // remainder estimate
+    proof {
+        assert(b3.subrange(k, ni) =~= b1.subrange(k, ni));
+        assert(cr + tr == xi + 2 * qt);
+        // the shift: qlow = (Q + x P) div 2
+        assert(qlow == (qq + xi * pk) / 2) by {
+            let hb = B() / 2;
+            let x = qq * hb + (xi * hb) * pk;
+            // (the shifted-out word is discarded: qlow * B + ret == x with 0 <= ret < B)
+            assert(qlow == x / B());
+            assert((xi * hb) * pk == hb * (xi * pk)) by (nonlinear_arith);
+            assert(qq * hb + hb * (xi * pk) == hb * (qq + xi * pk)) by (nonlinear_arith);
+            lemma_root_half_scaled(hb, qq + xi * pk);
+        }
+        lemma_pw_step(k);
+        let pkh = (B() / 2) * pw(k - 1);
+        assert(pk == 2 * pkh) by (nonlinear_arith) requires pk == B() * pw(k - 1), 2 * (B() / 2) == B(), pkh == (B() / 2) * pw(k - 1);
+        lemma_root_halve(qq, xi, qt, pk, pkh, qlow);
+        lemma_root_numerator(r1, r1p, tr, cr, s1, pk, vb1, qq, uu, qf, tt);
+        lemma_val_bound(a3.subrange(k, ni));
+        lemma_val_bound(a_in.subrange(k, 2 * k));
+        lemma_val_bound(a_in.subrange(0, k));
+        lemma_val_bound(b3.subrange(0, k));
+        lemma_pw_le(k, h);
+        assert(0 <= tt * s1 <= s1) by (nonlinear_arith) requires 0 <= tt <= 1, s1 >= 0;
+        assert(0 <= qt * pk) by (nonlinear_arith) requires 0 <= qt, pk >= 1;
+        lemma_root_q_le(r1, vb1, s1, qf, uu2, pk);
+        assert(av == vah * (pk * pk) + vb1 * pk + vb0) by {
+            assert(pw(2 * k) == pk * pk);
+            assert(pk * vb1 == vb1 * pk) by (nonlinear_arith);
+            assert((pk * pk) * vah == vah * (pk * pk)) by (nonlinear_arith);
+        }
+        lemma_root_identity(av, vah, vb1, vb0, s1, r1, qf, uu2, pk, sv);
+        lemma_root_rem_bounds(s1, qf, uu2, vb0, pk, sv);
+        lemma_root_qsq(qlow, qt, pk, qf);
+    }
+    @*/
 
     let mut c = 0i8; // stores final carry (top bit) of the remainder
+    /*@ proof {
+        lemma_root_low_bit(a_hi@[0]);
+        lemma_val_parity(a_hi@.subrange(0, k));
+        assert(a_hi@.subrange(0, k)[0] == a_hi@[0]);
+        assert(a_hi@.subrange(0, k) =~= a3.subrange(ni, ni + k));
+        assert(((a_hi@[0] & 1) != 0) == (tt == 1));
+        assert(val(a_lo@.subrange(k, ni)) == uu);
+        assert(val(b@.subrange(k, ni)) == s1);
+    } @*/
     if a_hi[0] & 1 != 0 {
         // this step fixes the error in u caused by using s1 as divisor instead of 2*s1
         c = add_in_place(&mut a_lo[split..], &b[split..]) as i8;
     }
+    /*@
+    let ghost c1 = c as int;
+    let ghost ulow = val(a_lo@.subrange(k, ni));
+    proof {
+        assert(tt * s1 == (if tt == 1 { s1 } else { 0 })) by (nonlinear_arith) requires tt == 0 || tt == 1;
+        assert(c1 * ph == (if c1 == 1 { ph } else { 0 })) by (nonlinear_arith) requires c1 == 0 || c1 == 1;
+        assert(uu2 == ulow + c1 * ph);
+        assert(a_lo@.subrange(0, k) =~= a_in.subrange(0, k));
+    }
+    @*/
 
     // store q^2 in high part of a, ignoring q_top.
     // afterwards, the q_top flag will be considered in the subtraction,
     a_hi.fill(0);
+    /*@ proof { lemma_val_zeros(a_hi@); assert(b@.subrange(0, k) =~= b3.subrange(0, k)); } @*/
     if !q_top {
         // if q_top is True, then q^2 = B^2, so we don't need to do squaring
         if split == 1 {
+            /*@ proof {
+                lemma_val1(b@.subrange(0, 1));
+                let w = b@[0] as int;
+                assert(w * w <= (B() - 1) * (B() - 1)) by (nonlinear_arith) requires 0 <= w <= B() - 1;
+            } @*/
             let (b2_lo, b2_hi) = split_dword(extend_word(b[0]) * extend_word(b[0]));
             a_hi[0] = b2_lo;
             a_hi[1] = b2_hi;
+            /*@ proof {
+                lemma_val_low_rest_zero(a_hi@, 2);
+                lemma_val2(a_hi@.subrange(0, 2));
+            } @*/
         } else {
             sqr::sqr(&mut a_hi[..2 * split], &b[..split], memory);
+            /*@ proof { lemma_val_low_rest_zero(a_hi@, 2 * k); } @*/
         }
     }
+    /*@
+    let ghost ahv = val(a_hi@);
+    proof {
+        assert(ahv == (if q_top { 0 } else { qlow * qlow }));
+        assert(forall|j: int| 2 * k <= j < ni ==> a_hi@[j] == 0);
+    }
+    let ghost ahi_pre = a_hi@;
+    @*/
     if 2 * split < n {
         a_hi[2 * split] = q_top as Word;
+        /*@ proof {
+            // n odd: the slot 2k of the n-word buffer gets q_top, i.e. q_top * P^2
+            if q_top {
+                lemma_val_zeros(ahi_pre);
+                lemma_val_unit(a_hi@, 2 * k, 1);
+                assert(1 * pw(2 * k) == pw(2 * k));
+            } else {
+                assert(a_hi@ =~= ahi_pre);
+            }
+        } @*/
     } else {
         c -= q_top as i8;
     }
+    /*@
+    let ghost e = if 2 * k < ni { 0int } else { qt };        // the part of q_top that went into c
+    let ghost c2 = c as int;
+    proof {
+        assert(c2 == c1 - e);
+        assert(val(a_hi@) + e * pn == qf * qf) by {
+            assert(pw(2 * k) == pk * pk);
+            if 2 * k < ni {
+                assert(e * pn == 0) by (nonlinear_arith) requires e == 0;
+            } else {
+                assert(ni == 2 * k);
+                assert(e * pn == (if q_top { pn } else { 0 })) by (nonlinear_arith) requires e == qt, qt == 0 || qt == 1, q_top == (qt == 1);
+            }
+        }
+        assert(val(a_lo@) == vb0 + pk * ulow) by {
+            lemma_val_split(a_lo@, k);
+        }
+    }
+    let ghost lo0 = val(a_lo@);
+    @*/
     c -= sub_in_place(a_lo, a_hi) as i8;
+    /*@
+    let ghost c3 = c as int;
+    proof {
+        let bo = c2 - c3;
+        assert(val(a_lo@) - bo * pn == lo0 - val(a_hi@));
+        lemma_root_rem_repr(lo0, val(a_lo@), val(a_hi@), vb0, ulow, c1, e, bo, qf * qf, pk, ph, pn);
+        assert(rr == val(a_lo@) + c3 * pn);
+    }
+    @*/
 
     // step3: fix the estimation error if necessary
+    /*@
+    let ghost bv0 = val(b@);
+    let ghost mut sfin = sv; let ghost mut rfin = rr;
+    proof {
+        // b = [qlow | s1]:  s = val(b) + q_top * P
+        assert(bv0 == qlow + pk * s1) by {
+            lemma_val_split(b@, k);
+            assert(b@.subrange(0, k) =~= b3.subrange(0, k));
+            assert(b@.subrange(k, ni) =~= b1.subrange(k, ni));
+        }
+        assert(pk * s1 == s1 * pk) by (nonlinear_arith);
+        assert(sv == bv0 + qt * pk);
+        lemma_val_bound(a_lo@);
+        lemma_val_bound(b@);
+        lemma_root_s_range(s1, qf, pk, ph, pn, sv);
+        // the estimate: av == sv^2 + rr, rr <= 2 sv, one correction suffices; the sign of rr is the sign of c
+        assert(av == sv * sv + rr && rr <= 2 * sv && rr + 2 * sv - 1 >= 0);
+        assert(c3 >= 0 ==> rr >= 0) by {
+            if c3 >= 0 { assert(c3 * pn >= 0) by (nonlinear_arith) requires c3 >= 0, pn >= 1; }
+        }
+        assert(c3 < 0 ==> rr <= -1) by {
+            if c3 < 0 { assert(c3 * pn <= -pn) by (nonlinear_arith) requires c3 <= -1, pn >= 1; }
+        }
+        // q == P (q_top) forces a negative remainder: c >= 0 implies !q_top
+        assert(c3 >= 0 ==> !q_top) by {
+            if q_top {
+                assert(qt * pk == pk) by (nonlinear_arith) requires qt == 1;
+                assert(c3 * pn < 0);
+                assert(c3 < 0) by (nonlinear_arith) requires c3 * pn < 0, pn >= 1;
+            }
+        }
+    }
+    @*/
     if c < 0 {
         // r += 2*s - 1; s -= 1;
         // apply the q_top to s first, and then adjust s and r
         let overflow = add_word_in_place(&mut b[split..], q_top as _);
+        /*@
+        let ghost bv1 = val(b@); let ghost lo0c = val(a_lo@);
+        proof {
+            assert(bv1 + b2i(overflow) * pn == sv) by {
+                lemma_window(b3, b@, k, ni, b2i(overflow), qt);
+            }
+            // the carry of `a_lo += 2 * b` is at most 2 (needed inside the next statement)
+            lemma_val_bound(b@);
+            assert forall|m: Seq<Word>, r: int| #![trigger val(m), (r * pn)]
+                m.len() == ni && 0 <= r && val(m) + r * pn == lo0c + 2 * bv1 implies r <= 2 by {
+                lemma_val_bound(m);
+                assert(r < 3) by (nonlinear_arith) requires r * pn < 3 * pn, pn >= 1;
+            }
+        }
+        @*/
         c += add_mul_word_in_place(a_lo, 2, b) as i8 + 2 * overflow as i8;
+        /*@ let ghost lo1c = val(a_lo@); let ghost c4 = c as int; @*/
         c -= sub_one_in_place(a_lo) as i8;
+        /*@ let ghost lo2c = val(a_lo@); let ghost c5 = c as int; @*/
         let borrow = sub_one_in_place(b);
+        /*@ proof {
+            let kk = c4 - c3 - 2 * b2i(overflow);
+            let bw = c4 - c5;
+            lemma_root_correction(lo0c, lo1c, lo2c, c3, kk, b2i(overflow), bw, b2i(borrow), bv1, val(b@), sv, rr, pn);
+            lemma_root_correct(sv, rr);
+            lemma_val_bound(b@);
+            lemma_root_no_wrap(val(b@), b2i(overflow) - b2i(borrow), pn);
+            sfin = sv - 1; rfin = rr + 2 * sv - 1;
+            assert(av == sfin * sfin + rfin);
+            assert(0 <= rfin <= 2 * sfin);
+            assert(sfin == val(b@));
+            assert(rfin == val(a_lo@) + (c as int) * pn);
+        } @*/
         debug_assert!(!(overflow ^ borrow)); // borrow should happen if and only if when overflow is true
     }
+    /*@ proof {
+        if c3 >= 0 {
+            assert(qt == 0);
+            assert(qt * pk == 0) by (nonlinear_arith) requires qt == 0;
+            assert(sfin == sv && rfin == rr && sv == bv0);
+        }
+        assert(sfin == val(b@));
+        assert(rfin == val(a_lo@) + (c as int) * pn);
+        assert(av == sfin * sfin + rfin);
+        assert(0 <= rfin <= 2 * sfin);
+        lemma_val_bound(a_lo@);
+        assert(2 * sfin < 2 * pn);
+        lemma_root_carry01(val(a_lo@), c as int, pn, rfin);
+        assert((c as int) * pn == b2i(c > 0) * pn);
+    } @*/
 
     c > 0
+    /*@ proof {
+        assert(a@.subrange(0, ni) =~= a_lo@);
+    } @*/
 }
